@@ -282,6 +282,9 @@ def rule_conv(ctx):
         ctx.check(good, "C06.CONV", f"{f.short}[{kind}]", "set_value(<kind's conversion of msg.value>)", f"the {kind} element does not hand the conversion of the child's text to set_value" , fi=f, text=f"conv:{kind}")
 
 
+# 'subject only to the switch rule', addressing of the right device, and number text valid for any format is parsed
+IMPORTS = [('C09', 'C09.STEP'), ('C04', 'C04.DEV'), ('C10', 'C10.PARSE')]
+
 RULES = [
     ("C06.KEY", rule_key, "dispatch: exactly the named elements of the addressed, kind-matching property; nothing else"),
     ("C06.SUBMIT", rule_submit, "client submit: one message, own address, exactly the pending parts, pending cleared"),
